@@ -748,7 +748,7 @@ fn join_tokens(tokens: &[String], rng: &mut Rng) -> String {
     s
 }
 
-fn gen_macro_program(rng: &mut Rng) -> String {
+pub fn gen_macro_program(rng: &mut Rng) -> String {
     let planned: Vec<Shape> = (0..NAMES.len()).map(|_| MacroGen::shape(rng)).collect();
     let mut g = MacroGen { rng, planned };
     let total_defs = 2 + g.rng.below(5); // 2..=6 #define lines
